@@ -116,7 +116,7 @@ def specApp (P : Params) (fs : List Fld) (init : Val) (h : Http) (strict : Bool)
   | .err (.bind e) =>
     specMulti P Cfg.default fs init h.params (.err e) ||
     (h.bodyTags && (classifyCT h.ctype == .form || classifyCT h.ctype == .multipart) &&
-      (causes P Cfg.default .form fs init h.form).any (fun c => match c, e with
+      (causes P Cfg.default .form fs init (formSrc h)).any (fun c => match c, e with
         | .bind n _, .bind m _ => n == m     -- the form bind starts from what the parameters left: judged by field
         | a, b => a == b))
   | .err .ctype => h.bodyTags && classifyCT h.ctype == .other
@@ -133,7 +133,12 @@ def specApp (P : Params) (fs : List Fld) (init : Val) (h : Http) (strict : Bool)
         (okVals (admissible { fmt := .json, policy := if strict then .error else .ignore, reader := false, readFails := 0, doc := d })).any fun dv =>
           carries init dv v && specMulti P Cfg.default fs init h.params (.ok (unmerge init dv v))
       | .json, none => false
-      | .form, _ | .multipart, _ => true   -- two binds in a row: model = implementation is the check (see notes)
+      | .form, _ | .multipart, _ =>
+        -- two binds in a row: the form values (of the container bindForm reads, `formSrc`) are bound onto what the
+        -- parameters left, and that second bind is judged by the plain oracle
+        (match bindMulti P Cfg.default fs init h.params with
+         | .ok v1 => specOK P Cfg.default .form fs v1 (formSrc h) (.ok v)
+         | _ => false)
       | .other, _ => false
 
 end Rivaas.Bind.Spec
